@@ -354,7 +354,8 @@ type TypeOps struct {
 	PoolAlloc func(a signal.Allocator) Pool
 	// MakeSl makes a slice of n elements; n < 0 makes a nil slice.
 	MakeSl func(n int) Sl
-	// MakeSS makes per-channel slices with the given lengths (<0: nil).
+	// MakeSS makes per-channel slices with the given lengths (<0: nil row;
+	// nil lens: a nil outer slice, non-nil empty lens: an empty non-nil one).
 	MakeSS func(lens []int) SS
 	// MakeSSRowHidden makes per-channel slices whose rows each have `extra`
 	// more elements of spare capacity behind them (nil rows stay nil); it
@@ -410,6 +411,9 @@ func mkOps[T signal.SignalTypes](name string, named bool, base int) *TypeOps {
 			return &gsl[T]{s: make([]T, n), ti: ti}
 		},
 		MakeSS: func(lens []int) SS {
+			if lens == nil {
+				return &gss[T]{s: nil, ti: ti} // a nil outer slice
+			}
 			s := make([][]T, len(lens))
 			for i, n := range lens {
 				if n >= 0 {
